@@ -514,7 +514,7 @@ func VerifH_C02_declroundtrip() {
 			vp.Observe("differs", name)
 		}
 	}
-	vp.Assert("C02.declroundtrip.same", same)
+	vp.Assert("C02,C12.declroundtrip.same", same)
 	// order: functions and methods keep their relative order; so do the variables (initialisation
 	// order of independent package-level variables is their textual order)
 	keep := func(order []string) string {
